@@ -45,6 +45,10 @@ Injective(s) == \A a, b \in DOMAIN s : s[a] = s[b] => a = b
 \* position (0-based) of value v in sequence s; -1 if absent
 PosOf(s, v) == IF \E k \in DOMAIN s : s[k] = v THEN (CHOOSE k \in DOMAIN s : s[k] = v) - 1 ELSE -1
 
+RECURSIVE SeqOfSet(_)
+SeqOfSet(S) == IF S = {} THEN <<>> ELSE LET x == CHOOSE x \in S : \A y \in S : x <= y IN <<x>> \o SeqOfSet(S \ {x})   \* ascending
+SetToSeqKids(P, i) == SeqOfSet(Kids(P, i))
+
 RECURSIVE SumSeq(_)
 SumSeq(s)   == IF s = <<>> THEN 0 ELSE Head(s) + SumSeq(Tail(s))
 RECURSIVE SumOver(_, _)                                \* sum of f[x] for x in S (f a function)
